@@ -46,8 +46,8 @@ structure Laws (F : Fmt) (WF : Bytes → Prop) (AL : Bytes → Prop) : Prop wher
   /-- the terminated remainder is complete and is consumed whole (only the marker is cut off) -/
   wf_final : ∀ r, WF r → r ≠ [] →
     F.complete (fixEnd F r) = true ∧ F.cutLen (fixEnd F r) = (addNL r).length
-  /-- what is delivered is entry-aligned (`AL`): a cut prefix … -/
-  cut_al : ∀ c, F.complete c = true → AL (c.take (F.cutLen c))
+  /-- what is delivered is entry-aligned (`AL`): a cut prefix of a well-formed remainder … -/
+  cut_al : ∀ r c, WF r → c <+: r → F.complete c = true → AL (c.take (F.cutLen c))
   /-- … and the terminated well-formed remainder -/
   final_al : ∀ r, WF r → r ≠ [] → AL (addNL r)
 
@@ -226,7 +226,7 @@ theorem readChunk_spec (F : Fmt) (WF : Bytes → Prop) (AL : Bytes → Prop) (L 
       have hwf' := L.wf_drop r chunk hwf hpre hcomp
       rw [← hn] at hwf'
       have hdd : r.drop n = file.drop (lp + n) := by rw [hr, List.drop_drop]
-      have hal := L.cut_al chunk hcomp
+      have hal := L.cut_al r chunk hwf (by rw [hchunk]; exact List.take_prefix _ _) hcomp
       refine ⟨n, hcp.1, ?_, ?_, ?_, ?_, ?_, by omega, hal⟩
       · simp only [← hn]; exact hout
       · simp only [← hn]; rw [List.length_take]; omega
@@ -560,7 +560,7 @@ theorem kLine_laws (n : Nat) (hn : 0 < n) : Laws (Fmt.kLine n) (WFk n) (fun c =>
     rw [hmod, Nat.sub_zero]
     exact prefix_all _ (addNL_getLast r)
   cut_al := by
-    intro c hc
+    intro _ c _ _ hc
     simp only [Fmt.kLine, decide_eq_true_eq] at hc ⊢
     have hm := mult_facts n (countNL c) hn hc
     rw [(prefix_spec c _ hm.1 hm.2.1).2.2.2]
@@ -653,7 +653,29 @@ theorem addNL_split (r : Bytes) : ∃ a, addNL r = a ++ [NL] := by
   rw [h2] at h1
   exact h1.symm
 
-theorem fasta_laws : Laws Fmt.fasta (fun _ => True) (fun _ => True) where
+/-- a remaining FASTA content is well formed when it is empty or starts with a header marker -/
+def WFfasta (r : Bytes) : Prop := r = [] ∨ r.head? = some GT
+
+theorem les_getElem : ∀ (b : Bytes), 0 < lastEntryStart b → b[lastEntryStart b]? = some GT := by
+  intro b
+  induction b with
+  | nil => simp [lastEntryStart]
+  | cons x xs ih =>
+    cases xs with
+    | nil => simp [lastEntryStart]
+    | cons y rest =>
+      rw [les_cons_cons]
+      by_cases h : lastEntryStart (y :: rest) > 0
+      · simp only [h, ↓reduceIte]
+        intro _
+        rw [List.getElem?_cons_succ]
+        exact ih h
+      · simp only [h, ↓reduceIte]
+        by_cases h2 : x = NL ∧ y = GT
+        · simp [h2]
+        · simp [h2]
+
+theorem fasta_laws : Laws Fmt.fasta WFfasta (fun c => c.head? = some GT) where
   cut_pos := by
     intro c hc
     simp only [Fmt.fasta, hasEntryBreak, decide_eq_true_eq] at hc ⊢
@@ -662,7 +684,15 @@ theorem fasta_laws : Laws Fmt.fasta (fun _ => True) (fun _ => True) where
     intro c hc
     simp only [Fmt.fasta, hasEntryBreak, decide_eq_true_eq] at hc ⊢
     exact (les_spec c).2 hc
-  wf_drop := by intros; trivial
+  wf_drop := by
+    intro r c _ hpre hc
+    simp only [Fmt.fasta, hasEntryBreak, decide_eq_true_eq] at hc ⊢
+    obtain ⟨t, ht⟩ := hpre
+    have hg := les_getElem c hc
+    right
+    rw [← ht, List.head?_drop, List.getElem?_append_left (by
+      have := hg; rw [List.getElem?_eq_some_iff] at this; obtain ⟨h, _⟩ := this; exact h)]
+    exact hg
   wf_final := by
     intro r _ _
     obtain ⟨a, ha⟩ := addNL_split r
@@ -671,18 +701,43 @@ theorem fasta_laws : Laws Fmt.fasta (fun _ => True) (fun _ => True) where
     simp only [List.cons_append, List.nil_append]
     rw [les_append_pair]
     simp
-  cut_al := by intros; trivial
-  final_al := by intros; trivial
+  cut_al := by
+    intro r c hwf hpre hc
+    simp only [Fmt.fasta, hasEntryBreak, decide_eq_true_eq] at hc ⊢
+    obtain ⟨t, ht⟩ := hpre
+    have hpos := hc
+    rcases hwf with h | h
+    · subst h; simp at ht; rw [ht.1] at hc; simp [lastEntryStart] at hc
+    · cases c with
+      | nil => simp [lastEntryStart] at hc
+      | cons x xs =>
+        rw [← ht] at h
+        simp only [List.cons_append, List.head?_cons, Option.some.injEq] at h
+        obtain ⟨k, hk⟩ : ∃ k, lastEntryStart (x :: xs) = k + 1 := ⟨lastEntryStart (x :: xs) - 1, by omega⟩
+        rw [hk, List.take_succ_cons]
+        simp [h]
+  final_al := by
+    intro r hwf hrne
+    rcases hwf with h | h
+    · exact absurd h hrne
+    · cases r with
+      | nil => exact absurd rfl hrne
+      | cons x xs =>
+        simp only [List.head?_cons, Option.some.injEq] at h
+        unfold addNL
+        split <;> simp [h]
 
-/-- **C01.readAll_bytes_fasta** — wrapped (multi-line) FASTA: for EVERY file, chunk size and
-mode the delivered chunks concatenate to the newline-terminated file; each is non-empty and ends
-with a newline (entries are never split across chunks in the model: a chunk ends right before a
-header line). -/
-theorem readAll_bytes_fasta (mode : Mode) (file : Bytes) (k : Nat) (hk : 0 < k) :
+/-- **C01.readAll_bytes_fasta** — wrapped (multi-line) FASTA: for EVERY file that is empty or
+starts with a header line, every chunk size and both modes, the delivered chunks concatenate
+to the newline-terminated file; each chunk is non-empty, ends with a newline and STARTS WITH A
+HEADER MARKER — so every chunk is a whole number of records (a record is never split). -/
+theorem readAll_bytes_fasta (mode : Mode) (file : Bytes) (hwf : file = [] ∨ file.head? = some GT)
+    (k : Nat) (hk : 0 < k) :
     (readAll Fmt.fasta true mode file k).flatten = norm file ∧
-    ∀ c ∈ readAll Fmt.fasta true mode file k, c ≠ [] ∧ c.getLast? = some NL := by
-  have h := readAll_bytes Fmt.fasta (fun _ => True) (fun _ => True) fasta_laws trivial mode file trivial k hk
-  exact ⟨h.1, fun c hc => ⟨(h.2 c hc).1, (h.2 c hc).2.1⟩⟩
+    ∀ c ∈ readAll Fmt.fasta true mode file k, c ≠ [] ∧ c.getLast? = some NL ∧ c.head? = some GT :=
+  readAll_bytes Fmt.fasta WFfasta (fun c => c.head? = some GT) fasta_laws (Or.inl rfl) mode file hwf k hk
+
+example : (readAll Fmt.fasta true .seek [62,97,10,65,67,10,62,98,10,71,71,10] 2) = [[62,97,10,65,67,10],[62,98,10,71,71,10]] := by decide
 
 end C01
 
